@@ -391,6 +391,22 @@ S.flip = lambda a, *dims: flip(a, dims[0] if len(dims) == 1 and isinstance(dims[
 S.norm = lambda a, p=2, dim=None, keepdim=False: norm(a, p, dim, keepdim)
 S.prod = lambda a, dim=None, keepdim=False: prod(a, dim, keepdim)
 S.mean = lambda a, dim=None, keepdim=False: mean(a, dim, keepdim)
+def split(a, sizes, dim=0):
+    """Tensor.split with a list of section sizes (views, as in torch)"""
+    if isinstance(sizes, (builtins.int, sym.SymInt)):
+        raise Unsupported("split with a chunk size")
+    d = T._norm_dim(dim, a.dim())
+    out, start = [], 0
+    for sz in sizes:
+        out.append(O.narrow(a, d, start, sz))
+        start = start + sz
+    if not O.dim_eq(start, a.shape[d]):
+        raise RuntimeError("split_with_sizes expects split_sizes to sum exactly to the size of the dimension")
+    return tuple(out)
+
+
+S.split = split
+
 def _resize_as_(a, other):
     if len(a.shape) == len(other.shape) and builtins.all(O.dim_eq(p, q) for p, q in zip(a.shape, other.shape)):
         return a  # same shape: no-op
@@ -791,6 +807,7 @@ def build():
         reshape=O.reshape, flatten=O.flatten, narrow=O.narrow, index_select=_index_select, mean=mean,
     ).items():
         setattr(torch, n, public(n, f))
+    torch.split = public("split", split)
     torch.max = public("max", max_)
     torch.min = public("min", min_)
     for n in ("prod", "cumsum", "count_nonzero", "isclose", "inverse", "logdet", "cholesky", "cholesky_solve",
